@@ -119,3 +119,19 @@ func (cs *ChainService) VerifGetAnchors() ([][]byte, types.BlockNo, error) {
 func (cs *ChainService) VerifFindAncestor(hashes [][]byte) (*types.BlockInfo, error) {
 	return cs.findAncestor(hashes)
 }
+
+// VerifCheckHardforkAtStart does what a node start does up to and including the hardfork compatibility check on the
+// stores under cfg.DataDir, then closes the stores again (the memorydb writes its content out on Close, so whatever
+// was set is durable, as on a real store). Returns the verdict of the check.
+func VerifCheckHardforkAtStart(cfg *config.Config) (err error) {
+	core, err := NewCore(cfg.DbType, cfg.DataDir, cfg.EnableTestmode, 0, cfg.DB)
+	if err != nil {
+		return err
+	}
+	defer core.Close()
+	cs := &ChainService{cfg: cfg, Core: core, op: NewOrphanPool(DfltOrphanPoolSize), stat: newStats()}
+	if _, err := cs.initGenesis(nil, !cfg.UseTestnet, cfg.EnableTestmode); err != nil {
+		return err
+	}
+	return cs.checkHardfork()
+}
